@@ -368,6 +368,10 @@ func c13R3(c *Ctx, rule string) {
 						c.Check(ok && k == 1 && usedOK, rule, construct, c.at(i), "AddUint32(&nextStreamID, 1), id = result-1", "stream id counter changed by something other than +1 or id not the pre-increment value")
 					} else if n == "sync/atomic.LoadUint32" {
 						c.OK(rule, construct+" (load)", c.at(i), "read only")
+					} else if n == "sync/atomic.StoreUint32" {
+						root, _ := fieldChain(arg)
+						_, ctor := root.(*ssa.Alloc)
+						c.Check(ctor, rule, construct+" (initialising store)", c.at(i), "constructor initialisation of a freshly allocated session", "the stream id counter is overwritten outside the constructor")
 					} else {
 						c.Bad(rule, construct, c.at(i), "unexpected operation "+n+" on the stream id counter")
 					}
